@@ -17,7 +17,11 @@ BINDINGS = [("ex", "http://a/"), ("", "urn:x"), ("é", "http://é/#"), ("n", "ht
             # a second label for an IRI that is already bound (same namespace declared twice)
             ("ex2", "http://a/"), ("n2", "http://b#"),
             # another prefix for namespaces that rdflib binds by default (dcterms:, xsd:)
-            ("dct", "http://purl.org/dc/terms/"), ("xs", "http://www.w3.org/2001/XMLSchema#")]
+            ("dct", "http://purl.org/dc/terms/"), ("xs", "http://www.w3.org/2001/XMLSchema#"),
+            # a namespace without '/' or '#' (terms below live in it and in "urn:x")
+            ("u", "urn:uuid:")]
+# terms inside separator-less namespaces; local parts begin with characters of the namespace
+URN_TRIPLE = (I("urn:uuid:d9b2"), I("urn:xurn:x"), I("urn:uuid:9d"))
 NBASE = 5
 TRIPLES = [
     (I("http://a/x"), I("http://a/y"), L("x")),
@@ -39,7 +43,7 @@ def binding_lists(maxlen: int) -> list:
         for y in range(NBASE):
             if y != x:
                 out.append((x, y, alias))
-    out += [(7,), (8,), (7, 0), (0, 8), (7, 8)]
+    out += [(7,), (8,), (7, 0), (0, 8), (7, 8), (9,), (1, 9)]
     return out
 
 
@@ -48,6 +52,8 @@ def stmt_seqs(cls: str) -> list:
     out = [[]]
     for k in (1, 2):
         out += [list(p) for p in itertools.product(alpha, repeat=k)]
+    urn = URN_TRIPLE if cls == "triple" else (*URN_TRIPLE, I("urn:uuid:u"))
+    out += [[urn], [alpha[0], urn], [urn, alpha[2]]]
     return out
 
 
